@@ -36,7 +36,7 @@ BACKOFFS = [
 ]
 JITTERS = [[], [0.0], [0.125], [0.25, -0.125, 0.5], [1.0, 2.0]]
 CODESETS = [None, [], [LISTED], [LISTED, LISTED2]]
-EXCSETS = [None, [], ['ExcE'], ['ExcE', 'ExcF']]
+EXCSETS = [None, [], ['ExcE'], ['ExcE', 'ExcF'], ['Exception'], ['ValueError', 'ExcF'], ['LibBaseError'], ['ExcE', 'LibDeserializationError']]
 PLACEMENTS = ['client', 'request', 'request-none', 'none']
 KINDS = ['single', 'batch', 'notification']
 
@@ -115,7 +115,7 @@ class C09(Check):
             st.sampled_from([LETTER[w] for w in LETTERS]),
             st.builds(lambda c: {'kind': 'code', 'code': c}, st.sampled_from([LISTED, LISTED2, UNLISTED, 0, -32603])),
             st.builds(lambda c: {'kind': 'batch_code', 'code': c}, st.sampled_from([LISTED, LISTED2, UNLISTED])),
-            st.builds(lambda e: {'kind': 'exc', 'exc': e}, st.sampled_from(['ExcE', 'ExcE2', 'ExcF', 'ExcU', 'TimeoutError'])),
+            st.builds(lambda e: {'kind': 'exc', 'exc': e}, st.sampled_from(['ExcE', 'ExcE2', 'ExcF', 'ExcU', 'TimeoutError', 'LibDeserializationError', 'LibIdentityError', 'LibBaseError', 'ValueError'])),
         )
         return st.builds(
             lambda c, r, p, s, o: {'client': c, 'request': r, 'placement': p, 'strategy': s, 'outcomes': o},
